@@ -1,13 +1,15 @@
 """C02 -- interstitial diffusivity equals the exact long-time diffusivity (run-time contract, level B)."""
 from vf.common import Report, finish, SEED
 from vf.rtc import runner, catalogue
-from contracts import interstitial_rt as I, vacancy_rt as V
+from contracts import interstitial_rt as I, vacancy_rt as V, interstitial_sx as IS
 
 
 def main(tier):
     rep = Report('C02', tier)
     n = len(catalogue.builders(tier, SEED))
     runner.run(rep, 'Interstitial::contract', I.w_interstitial, [(i, tier, SEED, 'C02') for i in range(n)], 'onsager/OnsagerCalc.py::Interstitial.diffusivity')
+
+    IS.run_all(rep, tier, 'C02:')
 
     from vf import extract
     for rel, q in [('onsager/OnsagerCalc.py', 'Interstitial.diffusivity'), ('onsager/OnsagerCalc.py', 'Interstitial.siteprob'), ('onsager/OnsagerCalc.py', 'Interstitial.ratelist'), ('onsager/OnsagerCalc.py', 'Interstitial.symmratelist'), ('onsager/OnsagerCalc.py', 'Interstitial.__init__'), ('onsager/crystal.py', 'Crystal.FullVectorBasis'), ('onsager/GFcalc.py', 'GFCrystalcalc.SetRates'), ('onsager/GFcalc.py', 'GFCrystalcalc.Diffusivity')]:
@@ -20,4 +22,5 @@ def main(tier):
 
 def annotate(rep):
     rep.trust('the CTMC long-time diffusivity formula (theory taken as definition)')
+    rep.gaps.append('level S (symbolic, all prefactors and energies) covers, per enumerated network: detailed balance, the null vector, the bias, D0, and -- for networks on the solve branch with at most %d vector-basis functions -- that the symmetry-reduced solution solves the full bias equation and the returned D is D0 + bias.Gamma; the pseudo-inverse branch, larger bases and the Green-function calculator are level B only' % IS.MAX_NV)
     rep.gaps.append('catalogue crystals and seeded data only (3 data sets quick / 10 thorough per crystal, energy spread up to 4 kT... 12 kT)')
